@@ -73,8 +73,20 @@ unsafe fn push_viol(v: AllocViolation) {
     }
 }
 
+/// Set once the table is nearly full (a workload that leaks without bound).  From then on blocks
+/// are no longer recorded and unknown blocks are no longer reported: the run is inconclusive for
+/// allocator accounting, which `Report::finish` states as `alloc_table_saturated`.
+static SATURATED: AtomicBool = AtomicBool::new(false);
+pub fn saturated() -> bool {
+    SATURATED.load(Ordering::SeqCst)
+}
+
 unsafe fn insert(ptr: usize, size: usize, align: usize) {
     let seq = SEQ.fetch_add(1, Ordering::SeqCst) + 1;
+    if LIVE.load(Ordering::SeqCst) >= CAP - CAP / 8 {
+        SATURATED.store(true, Ordering::SeqCst);
+        return;
+    }
     let _g = lock();
     let t = &mut st().table;
     let mut i = hash(ptr);
@@ -114,9 +126,11 @@ unsafe fn remove(ptr: usize) -> Option<Slot> {
     let found = t[i];
     // backward-shift deletion
     let mut j = i;
+    let mut steps = 0;
     loop {
         j = (j + 1) & MASK;
-        if t[j].ptr == 0 {
+        steps += 1;
+        if t[j].ptr == 0 || steps >= CAP {
             break;
         }
         let k = hash(t[j].ptr);
@@ -157,6 +171,7 @@ unsafe impl GlobalAlloc for TrackingAlloc {
     unsafe fn dealloc(&self, ptr: *mut u8, layout: Layout) {
         FREES.fetch_add(1, Ordering::Relaxed);
         match remove(ptr as usize) {
+            None if saturated() => System.dealloc(ptr, layout),
             None => {
                 push_viol(AllocViolation { kind: 1, ptr: ptr as usize, alloc_size: 0, alloc_align: 0, free_size: layout.size(), free_align: layout.align() });
                 // double free or foreign block: do not hand it to the system allocator again
@@ -171,6 +186,7 @@ unsafe impl GlobalAlloc for TrackingAlloc {
     }
     unsafe fn realloc(&self, ptr: *mut u8, layout: Layout, new_size: usize) -> *mut u8 {
         match remove(ptr as usize) {
+            None if saturated() => System.realloc(ptr, layout, new_size),
             None => {
                 push_viol(AllocViolation { kind: 1, ptr: ptr as usize, alloc_size: 0, alloc_align: 0, free_size: layout.size(), free_align: layout.align() });
                 // cannot realloc a block we do not own: emulate with a fresh block
